@@ -17,11 +17,11 @@ pub struct SimpleStats {
     n_tx: u64,
     n_tx_inputs: u64,
     n_tx_outputs: u64,
-    n_tx_total_fee: u64,
-    n_tx_total_volume: u64,
+    n_tx_total_fee: u128,
+    n_tx_total_volume: u128,
 
     /// Biggest value transaction (value, height, txid)
-    tx_biggest_value: (u64, u64, sha256d::Hash),
+    tx_biggest_value: (u128, u64, sha256d::Hash),
     /// Biggest size transaction (size, height, txid)
     tx_biggest_size: (usize, u64, sha256d::Hash),
     /// Contains transaction type count
@@ -211,20 +211,22 @@ impl Callback for SimpleStats {
         for tx in &block.txs {
             // Collect fee rewards
             if tx.value.is_coinbase() {
-                self.n_tx_total_fee += tx.value.outputs[0]
-                    .out
-                    .value
-                    .checked_sub(block::get_base_reward(block_height))
-                    .unwrap_or_default();
+                self.n_tx_total_fee += u128::from(
+                    tx.value.outputs[0]
+                        .out
+                        .value
+                        .checked_sub(block::get_base_reward(block_height))
+                        .unwrap_or_default(),
+                );
             }
 
             self.n_tx_inputs += tx.value.in_count.value;
             self.n_tx_outputs += tx.value.out_count.value;
 
-            let mut tx_value = 0;
+            let mut tx_value: u128 = 0;
             for (i, o) in tx.value.outputs.iter().enumerate() {
                 self.process_tx_pattern(o.script.pattern.clone(), block_height, tx.hash, i as u32);
-                tx_value += o.out.value;
+                tx_value += u128::from(o.out.value);
             }
             // Calculate and save biggest value transaction
             if tx_value > self.tx_biggest_value.0 {
